@@ -1,3 +1,46 @@
+//! C17 — the lock-free skip list (`skipfree`) loses no insert and always iterates in order; the
+//! prepend-only list (`listfree`) shows every element exactly once, newest first.
+//!
+//! Parts:
+//!   * `skiplist-token-schedules`, `prepend-list-token-schedules` — engine E5: generated
+//!     (workload, schedule) cases run by the deterministic token scheduler of `sched.rs` at the
+//!     granularity of the individual atomic loads, stores and compare-and-swaps;
+//!   * `real-thread-stress` — the same workloads on real cores.
+
+mod list;
+mod sched;
+mod skip;
+mod stress;
+
+use vcore::Check;
+
+/// Route the yield points of both crates into the token scheduler (threads that are not under a
+/// scheduler fall straight through) and switch the node registry on.
+pub fn install_hooks() {
+    skipfree::verif::set_yield_hook(Some(sched::hook));
+    listfree::verif::set_yield_hook(Some(sched::hook));
+}
+
+/// Real-thread runs: no yield points, no registry (its mutex would serialise the threads).
+pub fn uninstall_hooks() {
+    skipfree::verif::set_yield_hook(None);
+    listfree::verif::set_yield_hook(None);
+    skipfree::verif::set_registry(false);
+}
+
 fn main() {
-    vcore::main_with(vec![], &[]);
+    let check = Check::new(
+        "C17",
+        "exploration",
+        "Three proptest parts. skiplist-token-schedules (engine E5, deterministic): a case is (workload, schedule). Workload: 1-4 inserter threads x 1-6 inserts of distinct u64 keys from one of five families (dense permutation of 0..n; per-thread ascending blocks; per-thread descending blocks; interleaved so every key's neighbours belong to other threads, even threads ascending and odd threads descending; random u64 including 0, u64::MAX and near-duplicates) with generated tower heights (1-3 mostly, up to 12), plus 0-2 reader threads (at most 4 threads in all) running contains / full forward iteration / full backward iteration / seek followed by up to 4 next-prev moves on probe keys (every key, its two neighbours, 0, u64::MAX). Schedule: a Vec<u8> consumed one element per atomic pointer operation (yield hook before every get_next / set_next / cas_next): 0 keeps the token, e>0 hands it to another runnable thread; three density families (switch at ~every point, ~every 4th, ~every 15th); when the vector is exhausted the running thread runs to completion, then the lowest-numbered runnable one. Exactly one thread runs at a time, so the harness keeps an exact log: for every observation the set C of inserts that had returned before it began and the set S of inserts that had started before it ended. Oracles: every cursor movement (seek_to_first, seek, next, prev, prev-from-end) lands on a key of S on the correct side that does not skip any key of C (not valid only when C has no key in that direction), with the right value; whole iterations are strictly monotone with C-at-begin subset seen subset S-at-end; contains(k) is true for k in C and false for k not in S or never inserted; a panic inside skipfree or an operation exceeding 20 000 atomic steps is a failure; after all threads finished forward and backward iteration equal the inserted key set, contains and seek/next/prev are exact on every probe; the allocation registry reports no dereference of a freed node, including through two iterators (one forward from a generated position, one backward from the end) that are held while the last SkipList handle is dropped and must still yield exactly the keys. Non-trivial = at least one compare-and-swap of an insert failed (more site-3 hook calls than tower levels: two inserts raced for the same predecessor). prepend-list-token-schedules: 1-4 threads x 1-6 prepends and 0-2 readers x 1-4 full iterations under the same scheduler (hooks at node get/set_next, head load, head CAS); oracles: no duplicates, completed-before-begin subset seen subset started-before-end, an element whose prepend returned before another's began comes after it (so per-thread order is reversed), the final iteration is all elements in reverse order of the successful head CASes, and in hindsight every iteration equals exactly the elements whose CAS preceded its head load; non-trivial = a head CAS failed. real-thread-stress: 2-8 writer threads x 1-1250 keys each (<= 10 000; partitioned / interleaved / scattered over u64; odd writers optionally descending; heights derived from the case seed) and 1-4 reader threads looping over forward iteration, backward iteration, 48 contains probes, 24 seek+next+prev probes while the writers run, with Release/Acquire progress counters (completed snapshot before, started snapshot after each observation), then the quiescent checks; the same for the prepend list (per writer the elements seen must be exactly #m-1 … #0 with completed-before <= m <= started-after); non-trivial = at least one observation that saw a non-empty strict subset of the keys. Distinct by structural hash of the case.",
+    )
+    .assume("keys inserted into one skip list are pairwise distinct (SkipList::insert asserts the key is absent; duplicates are outside the statement's domain)")
+    .assume("token scheduling yields sequentially consistent executions only; weaker-than-SC behaviour of the Acquire/Release/SeqCst operations is exercised only by the real-thread part, on x86-64 (TSO) hardware")
+    .assume("the head pointer load of the skip list has no yield point (the head node is allocated once and never changes); every load/store/CAS of a next pointer, including the head node's, has one")
+    .assume("movements the statement does not define (next() from the end position, next()/prev() from the before-first position) are only required to land on a started key or nowhere")
+    .assume("an operation that executes more than 20 000 atomic steps on a list of at most 24 keys counts as not returning (a lock-free insert retries only when another insert succeeded)")
+    .pbt(skip::SkipTokens)
+    .pbt(list::ListTokens)
+    .pbt(stress::Stress);
+    vcore::main_with(vec![check], &[]);
 }
